@@ -14,7 +14,7 @@ GATES = {
               'layout:indented-comment': 2000, 'layout:blank-separated': 500, 'layout:mixed-class-adjacent': 300, 'layout:file-start': 500,
               'layout:file-end': 300, 'layout:after-last-meta-no-postings': 40, 'layout:before-dedent': 300, 'layout:nested-posting-meta': 100,
               'history_steps': 6000, 'handover_claims': 1500, 'manual_claims_judged': 2500, 'restore_checks': 800, 'idempotence_checks': 2500, 'parse_vs_later_checks': 2500,
-              'parse_vs_later_on_copy': 1000, 'multi_comment_handovers': 60, 'restore_interleaving:explicit-list': 300, 'histories_continued_on_copy': 150},
+              'parse_vs_later_on_copy': 1000, 'empty_selection_calls': 2000, 'comments_given_to_owners': 1500, 'multi_comment_handovers': 60, 'restore_interleaving:explicit-list': 300, 'histories_continued_on_copy': 150},
     'thorough': {'evaluations': 500000, 'layout:after-last-meta-no-postings': 800},
 }
 RULE = ('case = one document from the comment-layout generator (comment runs, matching or mismatching indentation, adjacent above / below / '
@@ -220,6 +220,19 @@ def run_case(col, r, idx):
                 col.violation('restore:claim-interleaving' + (':explicit-list' if explicit else ''),
                               f'{p}: unclaim_interleaving_comments() then claim_interleaving_comments() did not restore the attribution', wit)
                 return
+        # an empty selection selects nothing: releasing or claiming [] leaves every attribution as it is
+        for p, w in wr[:3]:
+            col.ev()
+            col.count('empty_selection_calls')
+            try:
+                got = (w.unclaim_interleaving_comments([]), w.claim_interleaving_comments(()))
+            except ValueError as e:
+                col.violation('empty-selection-raised', f'{p}: un/claim_interleaving_comments([]) raised {e}', wit)
+                return
+            if got[0] or attribution.ownership_map(f_on) != base_map:      # (claim returns every comment the list holds afterwards)
+                col.violation('empty-selection-changed-attribution', f'{p}: unclaim_interleaving_comments([]) / claim_interleaving_comments(()) returned '
+                              f'{got!r} or changed the ownership map', wit)
+                return
         # histories of claim / unclaim / auto calls
         root = f_off if idx % 2 else P.parse(text, models.File, auto_claim_comments=False)
         mg = ops.MiscGenerator(r)
@@ -237,7 +250,9 @@ def run_case(col, r, idx):
                 root = copy.deepcopy(root)          # the history continues on a copy taken mid-way
                 log.append('<continue on deepcopy>')
                 col.count('histories_continued_on_copy')
-            op = pp.pop() if pp else mg.claim_op(root)
+            op = pp.pop() if pp else (mg.give_comment_op(root) if r.random() < 0.12 else mg.claim_op(root))
+            if op is not None and op.kind.startswith('claim:give'):
+                col.count('comments_given_to_owners')
             if op is None:
                 continue
             res = 'refused'
